@@ -29,10 +29,78 @@ def shards(tier, seed):
     return [{'shard': 'u%d' % i, 'tier': tier, 'seed': seed, 'first': i * per, 'count': per} for i in range(n)]
 
 
+DEFAULTS_UNIVERSE = 9501
+
+
+def defaults_universe():
+    """bare, wrapped and out-bare methods over a class (and a subclass of it) whose members declare defaults of every falsy-able kind"""
+    ns = 'urn:vf:c18d'
+    P = lambda k, **f: {'prim': k, 'facets': f}
+    types = [{'name': 'Def', 'ns': ns, 'base': None, 'has_xmldata': False,
+              'fields': [['i', P('Integer', default=3)], ['s', P('Unicode', default='none')], ['b', P('Boolean', default=True)],
+                         ['plain', P('Integer')], ['j', dict(P('Integer', default=7), py='py_j')]]},
+             {'name': 'DefSub', 'ns': ns, 'base': 'Def', 'has_xmldata': False, 'fields': [['t', P('Unicode', default='sub')]]}]
+    M_ = lambda name, style, args, rets: {'name': name, 'args': args, 'returns': rets, 'style': style}
+    return {'uid': DEFAULTS_UNIVERSE, 'tns': ns, 'types': types, 'services': [{'name': 'S', 'methods': [
+        M_('bd', 'bare', [['arg', {'ref': 'Def'}]], [{'ref': 'Def'}]),
+        M_('bs', 'bare', [['arg', {'ref': 'DefSub'}]], [P('Unicode')]),
+        M_('wd', 'wrapped', [['d', {'ref': 'Def'}], ['i', P('Integer', default=3)], ['s', P('Unicode', default='none')], ['b', P('Boolean', default=True)]],
+           [P('Integer')]),
+        M_('od', 'out_bare', [['d', {'ref': 'DefSub'}], ['b', P('Boolean', default=True)]], [{'ref': 'Def'}])]}]}
+
+
 def universe(seed, uid):
+    if uid == DEFAULTS_UNIVERSE:
+        return defaults_universe()
     rng = core.rng_for(seed, PROP, 'uni%d' % uid)
-    o = gen.Opts(sub_names=True, attrs=False, nested_arrays=0.0, max_types=4, styles=('wrapped', 'wrapped', 'wrapped', 'bare', 'out_bare', 'out_bare', 'empty', 'empty'), memberless_subclasses=True)
-    return gen.rand_universe(rng, o, uid=uid)
+    o = gen.Opts(sub_names=True, attrs=False, nested_arrays=0.0, max_types=4, styles=('wrapped', 'wrapped', 'wrapped', 'bare', 'out_bare', 'out_bare', 'empty', 'empty'), memberless_subclasses=True,
+                 defaults=(uid % 2 == 1))
+    ir = gen.rand_universe(rng, o, uid=uid)
+
+    def strip(t):
+        (t.get('facets') or {}).pop('default', None)
+        for k in ('array', 'seq'):
+            if k in t:
+                strip(t[k])
+    # a default is kept where "this member carries a value" is something both a direct caller and a client can say: on plain
+    # members and arguments. What the default of a repeated member or of a return value means is a matter of the wire (C01).
+    for td in ir['types']:
+        for fn, ft in td['fields']:
+            if 'seq' in ft or 'array' in ft:
+                strip(ft)
+    for sd in ir['services']:
+        for md in sd['methods']:
+            for rt in md['returns']:
+                strip(rt)
+            for an, at in md['args']:
+                if 'seq' in at or 'array' in at:
+                    strip(at)
+    return ir
+
+
+def fill_defaulted(ir, t, v, rng, top=True):
+    """In universes with declared defaults a member that has one always carries a value (what an absent member means differs by
+    design: the wire applies the default, a direct caller passes None), and often a falsy one - 0, '', False - where the
+    declaration allows it."""
+    if isinstance(v, list):
+        inner = t.get('array') or t.get('seq')
+        return [fill_defaulted(ir, inner, x, rng, False) for x in v] if inner else v
+    if 'ref' in t and isinstance(v, dict):
+        out = dict(v)
+        for fn, ft in gen.all_fields(ir, v.get('__class__', t['ref'])):
+            out[fn] = fill_defaulted(ir, ft, v.get(fn), rng, False)
+        return out
+    f = (t.get('facets') or {}) if 'prim' in t else {}
+    if 'default' in f:
+        falsy = {'Integer': 0, 'Unicode': '', 'Boolean': False}.get(t['prim'])
+        ok = falsy is not None
+        if t['prim'] == 'Integer':
+            ok = f.get('ge', 0) <= 0 <= f.get('le', 0) and f.get('gt', -1) < 0 < f.get('lt', 1)
+        if t['prim'] == 'Unicode':
+            ok = f.get('min_len', 0) == 0 and 'pattern' not in f and 'values' not in f
+        if v is None or rng.random() < .4:
+            return falsy if ok else (v if v is not None else f['default'])
+    return v
 
 
 def null_call(B, server, md, args, mode):
@@ -168,6 +236,10 @@ def run_universe(R, seed, uid, tier):
             for k in range(ncalls):
                 args = [gen.gen_value(rng, ir, t, top=(md['style'] == 'bare')) for _, t in md['args']]
                 rets = [gen.gen_value(rng, ir, t, top=(md['style'] != 'wrapped')) for t in md['returns']]
+                if uid % 2 == 1:
+                    args = [fill_defaulted(ir, t, v, rng) for (_, t), v in zip(md['args'], args)]
+                    rets = [fill_defaulted(ir, t, v, rng) for t, v in zip(md['returns'], rets)]
+                    R.count('calls_in_universes_with_defaults')
                 outcome = rng.choice(('ok', 'ok', 'ok', 'fault', 'ignored', 'generator'))
                 repro = {'seed': seed, 'uid': uid, 'method': md['name'], 'call': k, 'outcome': outcome, 'style': md['style']}
                 builds = [Bn] + [w['B'] for w in wires.values()]
@@ -307,7 +379,12 @@ def one_case(R, ir, Bn, null, wires, md, args, rets, outcome, is_ignored, repro,
                                 mech='args_differ:%s:%s' % (kind, md['style']))
         R.count('results_compared')
         if is_ignored:
-            if any(x is not None for x in w[1]):
+            def empty(x):
+                # nothing, or the response element present without content (decoded: an object none of whose members is set)
+                if isinstance(x, dict):
+                    return all(empty(v) for k, v in x.items() if k != '__class__')
+                return x is None or x == []
+            if not all(empty(x) for x in w[1]):
                 R.violation('Ignored(...) return was sent over %s as %r' % (kind, w[1]), case, mech='ignored_sent_on_wire:%s' % kind)
             else:
                 R.nontrivial(md['style'], kind, 'ignored')
@@ -330,6 +407,10 @@ def one_case(R, ir, Bn, null, wires, md, args, rets, outcome, is_ignored, repro,
 def run(spec, R):
     for uid in range(spec['first'], spec['first'] + spec['count']):
         run_universe(R, spec['seed'], uid, spec['tier'])
+    if spec['first'] == 0:
+        for rep in range(3 if spec['tier'] == 'quick' else 12):
+            run_universe(R, spec['seed'] * 100 + rep, DEFAULTS_UNIVERSE, 'thorough')
+        R.count('defaults_universe_runs')
 
 
 def replay(v, R):
